@@ -48,6 +48,7 @@ interface *
     mtu
     d *
     z
+    description
 g ~ %global
 z
     c
@@ -68,11 +69,22 @@ ACLS_T = ACLS_Q + [(0b0010, 0, 0, 1), (0b0100, 0, 0, 0), (0b0001, 0, 0, 0), (0b1
 ACLS = ACLS_Q if rt.TIER == "quick" else ACLS_T
 # special ACL texts: (1) a rule that merely STARTS with "interface" (built-in cant_delete default), (2) a row matched by two
 # local rules one of which brings a %global child rule, next to a sibling matched by only one of them
-SPECIAL_ACLS = ["interface-range *\n    mtu\na\n", "b *\n    n * %prio=1\n        c\nb 1\n    ~ %global\n",
-                "interfaces-x\na %cant_delete=1\nb *\n    n *\n        c\n"]
-OLD_S = [S(["interface-range R"], [S(["mtu 9000"]), S(["z"])]),
-         S(["b 1"], [S(["n 1"], [S(["c"]), S(["z"])])]), S(["b 2"], [S(["n 1"], [S(["c"]), S(["z"])])])]
-NEW_S = [S(["a", "a x"]), S(["b 1"], [S(["n 1"], [S(["c"])])]), S(["b 2"], [S(["n 1"], [S(["c"])])])]
+_B1 = S(["b 1"], [S(["n 1"], [S(["c"]), S(["z"])])])
+_B2 = S(["b 2"], [S(["n 1"], [S(["c"]), S(["z"])])])
+_NB1 = S(["b 1"], [S(["n 1"], [S(["c"])])])
+_NB2 = S(["b 2"], [S(["n 1"], [S(["c"])])])
+SPECIALS = [
+    # a rule that merely STARTS with "interface": built-in cant_delete default
+    ("interface-range *\n    mtu\na\n", [S(["interface-range R"], [S(["mtu 9000"]), S(["z"])]), S(["a"])], [S(["a", "a x"])]),
+    # a row matched by two local rules, one of which brings a %global child, beside a sibling matched by one
+    ("b *\n    n * %prio=1\n        c\nb 1\n    ~ %global\n", [_B1, _B2], [_NB1, _NB2]),
+    ("interfaces-x\na %cant_delete=1\nb *\n    n *\n        c\n", [S(["a"]), _B1, _B2], [S(["a", "a x"]), _NB1, _NB2]),
+    # the explicit negated form of a cant_delete row beside a catch-all sibling rule
+    ("interface *\n    description %cant_delete=1 %prio=1\n    ~\n",
+     [S(["interface X"], [S(["description a"]), S(["mtu 9000"])])],
+     [S(["interface X"], [S(["undo description", "description b"]), S(["mtu 9000", "mtu 1500"])])]),
+]
+SPECIAL_ACLS = [x[0] for x in SPECIALS]
 
 OLD_Q = [S(["a"]), S(["interface X"], [S(["mtu 9000"]), S(["z"])]), S(["b 1"], [S(["c"]), S(["d 1"]), S(["z"]), S(["e"])])]
 NEW_Q = [S(["a", "a x"]), S(["interface X"], [S(["mtu 9000", "mtu 1500"])]), S(["b 1"], [S(["c"]), S(["d 1"]), S(["e"])])]
@@ -239,9 +251,13 @@ def h_acl_patch(case: int) -> bool:
     return ok
 
 
-NOS, NNS = count(OLD_S), count(NEW_S)
-RADS = [1 if rt.TIER == "quick" else len(VENDORS), len(SPECIAL_ACLS), NOS, NNS]
-NSPEC = RADS[0] * RADS[1] * RADS[2] * RADS[3]
+SP_CASES = []
+for _si, (_acl, _o, _n) in enumerate(SPECIALS):
+    for _vi in range(1 if rt.TIER == "quick" else len(VENDORS)):
+        for _oi in range(count(_o)):
+            for _ni in range(count(_n)):
+                SP_CASES.append((_vi, _si, _oi, _ni))
+NSPEC = len(SP_CASES)
 SLO, SHI = rt.shard_range(NSPEC)
 
 
@@ -252,9 +268,10 @@ def h_special(case: int) -> bool:
     """
     c = pick(case, SHI, SLO)
     with NoTracing():
-        vi, ai, oi, ni = digits(c, RADS)
-        ok, detail, kind, nt = check_case(VENDORS[vi], SPECIAL_ACLS[ai], unrank(OLD_S, oi), unrank(NEW_S, ni))
-        rt.record({"vendor": VENDORS[vi], "special": ai, "old": oi, "new": ni}, ok, [vi, ai, oi, ni] if nt else None, detail=detail,
+        vi, si, oi, ni = SP_CASES[c]
+        acl, osl, nsl = SPECIALS[si]
+        ok, detail, kind, nt = check_case(VENDORS[vi], acl, unrank(osl, oi), unrank(nsl, ni))
+        rt.record({"vendor": VENDORS[vi], "special": si, "old": oi, "new": ni}, ok, [vi, si, oi, ni] if nt else None, detail=detail,
                   fingerprint="C02:%s" % kind)
     return ok
 
@@ -288,7 +305,8 @@ def plan(tier):
 
 def replay(obligation, case):
     if "special" in case:
-        ok, detail, kind, _ = check_case(case["vendor"], SPECIAL_ACLS[case["special"]], unrank(OLD_S, case["old"]), unrank(NEW_S, case["new"]))
+        acl, osl, nsl = SPECIALS[case["special"]]
+        ok, detail, kind, _ = check_case(case["vendor"], acl, unrank(osl, case["old"]), unrank(nsl, case["new"]))
         return {"ok": ok, "detail": detail, "fingerprint": "C02:%s" % kind}
     t = case.get("tier", "quick")
     old_s, new_s = (OLD_Q, NEW_Q) if t == "quick" else (OLD_T, NEW_T)
